@@ -221,6 +221,7 @@ def parse_global(m, s):
     m.globals[name] = (t, init, is_const)
 
 def parse_fn_header(p):
+    while p.peek()[0] == 'meta': p.next()      # declare !callback !N ...
     while p.peek()[0] == 'word' and (p.peek()[1] in LINKAGE or p.peek()[1] in PARAM_ATTRS):
         skip_param_attrs(p)
         if p.peek()[0] == 'word' and p.peek()[1] in LINKAGE: p.next()
